@@ -110,6 +110,9 @@ fn cmp_values(a: &Value, b: &Value) -> Option<Ordering> {
             (Value::Text(x), Value::Text(y)) => Some(x.as_str().cmp(y.as_str())),
             (Value::Date(x), Value::Date(y)) => Some((**x).cmp(&**y)),
             (Value::DateTime(x), Value::DateTime(y)) => Some((**x).cmp(&**y)),
+            // a date is the instant at midnight of that day
+            (Value::Date(x), Value::DateTime(y)) => Some(x.and_hms_opt(0, 0, 0)?.cmp(&**y)),
+            (Value::DateTime(x), Value::Date(y)) => Some((**x).cmp(&y.and_hms_opt(0, 0, 0)?)),
             (Value::Time(x), Value::Time(y)) => Some((**x).cmp(&**y)),
             _ => None,
         },
@@ -344,6 +347,12 @@ fn gen_pred(r: &mut Rng, cols: &[ColSpec], depth: u32) -> P {
             // column vs literal (either order)
             let c = r.pick(cols);
             let lit = near_literal(r, &c.ty);
+            // a datetime column against a date literal and vice versa
+            let lit = match (&lit, r.chance(1, 4)) {
+                (Value::DateTime(d), true) => Value::date(d.date()),
+                (Value::Date(d), true) => Value::date_time(d.and_hms_opt(0, 0, 0).unwrap() + chrono::Duration::hours(r.range(0, 30))),
+                _ => lit,
+            };
             let op = *r.pick(&ops);
             if r.bool() {
                 P::Cmp(op, Operand::Col(c.name.clone()), Operand::Lit(lit))
@@ -354,12 +363,13 @@ fn gen_pred(r: &mut Rng, cols: &[ColSpec], depth: u32) -> P {
         4 | 5 => {
             // column vs column (numeric, possibly int vs float)
             let (c1, c2) = if r.chance(1, 3) {
-                // two temporal columns of the same variant
-                let kind = r.below(2);
+                // two temporal columns: both dates, both datetimes, or one of each
+                let kind = r.below(3);
                 let same: Vec<&ColSpec> = cols
                     .iter()
                     .filter(|c| match (kind, inner(&c.ty)) {
                         (0, DataType::Date(_)) | (1, DataType::DateTime(_)) => true,
+                        (2, DataType::Date(_)) | (2, DataType::DateTime(_)) => true,
                         _ => false,
                     })
                     .collect();
